@@ -181,6 +181,7 @@ class TKStep2NcTime(Spec):
     func = "ladim.timekeeper.TimeKeeper.step2nctime"
     properties = ("C13", "C10", "C06")
     inline = ()
+    callees = {"ladim.timekeeper.TimeKeeper.step2time": TKStep2Time()}  # used modularly if the function delegates to it
 
     def __init__(self, unit):
         self.unit = unit
